@@ -178,6 +178,11 @@ func (h *Handler) violate(f string, a ...any) {
 }
 
 func (h *Handler) KeyEventBatch(ctx context.Context, evs [][]byte) ([][]*handlerpb.KeyedEvent, error) {
+	h.w.mu.Lock()
+	h.w.keyCalls++
+	h.w.MaxKeyCalls = max(h.w.MaxKeyCalls, h.w.keyCalls)
+	h.w.mu.Unlock()
+	defer func() { h.w.mu.Lock(); h.w.keyCalls--; h.w.mu.Unlock() }()
 	if h.KeyLatency != nil {
 		h.KeyLatency(len(evs))
 	}
@@ -295,6 +300,9 @@ type World struct {
 	OpAcks       []*snapshotpb.OperatorCheckpoint
 	Assigned     []string // "split@pos" in assignment order
 	Deploys      int
+	Assembly     []string // operator ids of the latest deployment, in range order
+	MaxKeyCalls  int      // most KeyEventBatch calls in flight at once
+	keyCalls     int
 	RestoredDups []string
 	Delivered    map[string][]Delivered // operator id -> events in arrival order
 	nameSeq      int
@@ -646,6 +654,10 @@ func (c *opClient) Deploy(ctx context.Context, r *workerpb.DeployOperatorRequest
 	}
 	c.w.mu.Lock()
 	c.w.Deploys++
+	c.w.Assembly = nil
+	for _, o := range r.Operators {
+		c.w.Assembly = append(c.w.Assembly, o.Id)
+	}
 	c.w.mu.Unlock()
 	return t.Op.HandleDeploy(ctx, r, nopSink{})
 }
